@@ -312,9 +312,12 @@ fn check_declared_parcelables(
             .fold(HashMap::new(), |mut map, declared_parcelable| {
                 let qualified_name = declared_parcelable.get_qualified_name();
 
+                // Note: report the first conflicting import in source order (and not in the
+                // iteration order of the map)
                 if let Some((_, conflicting_import)) = imports
                     .iter()
-                    .find(|(_, import)| import.name == declared_parcelable.name)
+                    .filter(|(_, import)| import.name == declared_parcelable.name)
+                    .min_by_key(|(_, import)| import.symbol_range.start.offset)
                 {
                     diagnostics.push(Diagnostic {
                         kind: DiagnosticKind::Error,
